@@ -18,7 +18,8 @@ import (
 func genC14(t *rapid.T) *Script {
 	cfg := genCfg(t, "")
 	cfg.Approve = "all"
-	g := &hgen{t: t, cfg: cfg, inSeq: 1}
+	// the peer's numbering may be far along: beyond 2^31 and 2^32 as well
+	g := &hgen{t: t, cfg: cfg, inSeq: rapid.SampledFrom([]int{1, 1, 1, 1, 2147483645, 4294967290, 1000000000000}).Draw(t, "peerSeqBase")}
 	sc := &Script{Cfg: cfg}
 	sc.Steps = append(sc.Steps, rig.Step{Op: "in", In: g.goodLogon(0)})
 	g.logged, g.sent = true, 1
